@@ -540,7 +540,7 @@ def run_check(pid, tier, seed):
     n_unlisted = sum(len(v) for v in groups.values())
     for key, ds in list(groups.items())[:8]:
         d = ds[0]
-        if d['kind'] in ('REJECT', 'PANIC') and d['case']:
+        if d['kind'] in ('REJECT', 'PANIC') and d['case'] and 'PANIC hang:' not in d.get('got', ''):   # a hanging case is not re-run 60 times
             try: d = shrink(d, scratch)
             except Exception as e: d['shrink_error'] = repr(e)
         p = write_replay(pid, d, dict(what='implementation output not in the accepted set' if d['kind'] == 'REJECT' else d['kind'].lower(),
